@@ -502,6 +502,27 @@ fn step(w: &mut World, ctx: &mut Ctx, st: &Step) -> StepResult {
                 }
             }
         }
+        "MalformedTyped" => {
+            // what a decoder can deliver: a typed value (share, sealed message, signature, salt) that is tagged
+            // correctly but carries too little or wrong data, under the predicate that makes the library parse it
+            let n = (st.arg(2) % 4) as usize;
+            let (pred, tag): (KnownValue, u64) = match st.arg(1) % 4 {
+                0 => (known_values::SSKR_SHARE, 40309),
+                1 => (known_values::SIGNED, 40020),
+                2 => (known_values::HAS_RECIPIENT, 40019),
+                _ => (known_values::SALT, 40018),
+            };
+            let payload = if st.arg(3) % 2 == 0 { CBOR::to_byte_string(vec![7u8; n]) } else { CBOR::from(vec![CBOR::from(1u8); n]) };
+            let val = CBOR::to_tagged_value(tag, payload);
+            let e = lib!("add_assertion", env.add_assertion(pred, val));
+            match decode_guarded(&e.to_cbor_data()) {
+                Decoded::Ok(d) => {
+                    ctx.probe("malformed-typed-value-delivered");
+                    push_plain(w, ctx, d, "MalformedTyped")
+                }
+                _ => StepResult::Refused,
+            }
+        }
         "DateLeaf" => {
             // a date leaf outside chrono's range, as a decoder would deliver it (known finding D7 territory)
             let vals = ["f9fc00", "f97c00", "fb7e37e43c8800759c", "1b0000ffffffffffff", "f97e00"];
@@ -561,7 +582,7 @@ pub fn run(scn: &Scenario, ctx: &mut Ctx) {
     for (i, st) in scn.steps.iter().enumerate() {
         ctx.step = i;
         ctx.sim_ticks += 1;
-        let r = if st.op.starts_with("Deco") || st.op == "Adversarial" || st.op == "Call" || st.op == "DateLeaf" { step(&mut w, ctx, st) } else { hist::exec_step(&mut w, ctx, st) };
+        let r = if st.op.starts_with("Deco") || st.op == "Adversarial" || st.op == "Call" || st.op == "DateLeaf" || st.op == "MalformedTyped" { step(&mut w, ctx, st) } else { hist::exec_step(&mut w, ctx, st) };
         if !matches!(r, StepResult::Skipped) {
             ctx.executed += 1;
         }
@@ -600,6 +621,9 @@ pub fn generate(property: &str, r: &mut SimRng, seed: u64) -> Scenario {
             let mask = r.next() & r.next();
             scn.push("ElideSet", &[ds(r), r.below(2), r.below(3), mask, r.below(8)]);
         }
+    }
+    if property == "C16" && r.chance(1, 6) {
+        scn.push("MalformedTyped", &[ds(r), r.below(4), r.below(4), r.below(2)]);
     }
     if property == "C16" && r.chance(1, 25) {
         scn.push("DateLeaf", &[ds(r), r.below(5), r.below(2)]);
